@@ -27,7 +27,11 @@ Leaf == {JNull, JBool(TRUE), JNum(Qn(4)), JNum(Qn(2)), JNum(Qn(-12)), JNum([lm |
 D1 == Leaf \cup {JArr(s) : s \in SeqsUpTo(TakeN(Leaf, 5), 2)}
         \cup {JObj(<<>>)} \cup {JObj(<<Pair(<<k>>, v)>>) : k \in {"a", "b"}, v \in TakeN(Leaf, 5)}
         \cup {JObj(<<Pair(<<k1>>, v1), Pair(<<k2>>, v2)>>) : k1 \in {"a", "b"}, k2 \in {"a", "b"}, v1 \in TakeN(Leaf, 3), v2 \in TakeN(Leaf, 3)}
-D2 == D1 \cup {JArr(<<x, y>>) : x \in TakeN(D1, 12), y \in TakeN(D1, 6)} \cup {JObj(<<Pair(<<"a">>, x), Pair(<<"b">>, y)>>) : x \in TakeN(D1 \ Leaf, 10), y \in TakeN(D1, 5)}
+\* duplicate property names whose values are structures (arrays, objects) of equal and of different shapes
+DDup == {JObj(<<Pair(<<"a">>, v), Pair(<<"a">>, w)>>) : v \in {JObj(<<>>), JArr(<<>>), JObj(<<Pair(<<"b">>, JNum(Qn(4)))>>), JArr(<<JNum(Qn(4))>>)},
+                                                        w \in {JObj(<<>>), JArr(<<>>), JObj(<<Pair(<<"b">>, JStr(<<"a">>))>>), JArr(<<JNum(Qn(2))>>), JNull}}
+        \cup {JArr(<<JObj(<<Pair(<<"a">>, JArr(<<JBool(TRUE)>>)), Pair(<<"b">>, JNull), Pair(<<"a">>, JArr(<<JBool(TRUE)>>))>>)>>)}
+D2 == D1 \cup DDup \cup {JArr(<<x, y>>) : x \in TakeN(D1, 12), y \in TakeN(D1, 6)} \cup {JObj(<<Pair(<<"a">>, x), Pair(<<"b">>, y)>>) : x \in TakeN(D1 \ Leaf, 10), y \in TakeN(D1, 5)}
            \cup {JObj(<<Pair(<<"b">>, x), Pair(<<"a">>, JNull)>>) : x \in TakeN(D1 \ Leaf, 14)}
 \* values whose own type still mentions the placeholder (untyped nulls, empty collections of dynamic), inside structures
 DynOwn == {SeqV(TTup(<<TDyn, TNum>>), <<Null(TDyn), NumV(4)>>), MapV(TObj([a |-> TDyn, b |-> TStr]), [a |-> Null(TDyn), b |-> StrV(<<"a">>)]), SeqV(TList(TDyn), <<>>),
@@ -46,7 +50,7 @@ Alike == <<SeqV(TList(OA), <<oa>>), SeqV(TList(OB), <<ob>>), SeqV(TList(OC), <<o
 Side(v, w) == SeqV(TTup(<<v.ty, w.ty>>), <<v, w>>)
 AlikeLines == {[k |-> "jm", vals |-> Alike \o <<Alike[1]>>, tys |-> <<TDyn>>]}
               \cup {[k |-> "jm", vals |-> <<Side(Alike[i], Alike[j])>>, tys |-> <<TTup(<<TDyn, TDyn>>), TDyn, TTup(<<TDyn, Alike[j].ty>>)>>] : i \in 1..Len(Alike), j \in 1..Len(Alike)}
-DLine == [k |-> "jd", docs |-> SetToSeq(IF Thorough THEN D2 ELSE TakeN(D2, 600))]
+DLine == [k |-> "jd", docs |-> SetToSeq(IF Thorough THEN D2 ELSE TakeN(D2, 600) \cup DDup)]
 ASSUME LET out == [j \in 1..Len(Mine) |-> MLine(TS[Mine[j]])] \o [j \in 1..Len(Mine) |-> XLine(TS[Mine[j]])] \o (IF ShardI = 0 THEN <<DLine>> \o SetToSeq(DynOwnLines) \o SetToSeq(AlikeLines) ELSE <<>>) IN
        ndJsonSerialize(IOEnv.VOUT, out) /\ PrintT(<<"GEN", Len(out)>>)
 VARIABLE x
